@@ -328,7 +328,7 @@ def new_slot():
     return 1 + next(_RUN_SEQ) % (10**9 - 1)
 
 
-def run_real_binary(binary, argv, files, env_extra=None, tz='UTC', stdout_to=None, timeout=20, home_config=None, stable_dir=False, modes=None, drop_env=(), slot=None, links=None, fifos=None):
+def run_real_binary(binary, argv, files, env_extra=None, tz='UTC', stdout_to=None, timeout=20, home_config=None, stable_dir=False, modes=None, drop_env=(), slot=None, links=None, fifos=None, fifo_delay=0):
     """run the untagged binary as a sub-process in a scratch directory with the given files"""
     # stable_dir: the same scratch path on every call of this process ($HOME is an input of the program: `gen` prints it)
     base = os.path.join(scratch_root(), 'real-%07d-%09d' % (os.getpid(), 0 if stable_dir else slot if slot is not None else new_slot()))
@@ -368,6 +368,8 @@ def run_real_binary(binary, argv, files, env_extra=None, tz='UTC', stdout_to=Non
             open_up(path)
             def feed(path=path, data=data):
                 try:
+                    if fifo_delay:
+                        time.sleep(fifo_delay)      # a writer that opens the pipe after the program has
                     fd = os.open(path, os.O_WRONLY)
                     try:
                         os.write(fd, data)
@@ -389,6 +391,15 @@ def run_real_binary(binary, argv, files, env_extra=None, tz='UTC', stdout_to=Non
             sh = 'trap "" XFSZ; ulimit -f 0; exec "$0" "$@" > out.txt'
             p = subprocess.run(['/bin/sh', '-c', sh] + args, cwd=work, env=env, stdout=subprocess.DEVNULL, stderr=subprocess.PIPE, timeout=timeout, **as_scratch_user())
             return p.returncode, b'', p.stderr
+        if stdout_to == 'file':
+            # a regular file in a directory of its own (the program's working directory stays as it is)
+            outdir = os.path.join(base, 'out')
+            os.makedirs(outdir)
+            open_up(outdir)
+            with open(os.path.join(outdir, 'stdout.txt'), 'wb') as sink:
+                p = subprocess.run(args, cwd=work, env=env, stdout=sink, stderr=subprocess.PIPE, timeout=timeout, **as_scratch_user())
+            with open(os.path.join(outdir, 'stdout.txt'), 'rb') as f:
+                return p.returncode, f.read(), p.stderr
         if stdout_to == 'closed':
             # a pipe whose read end is closed *before* the program starts: every write fails (EPIPE / SIGPIPE), no race
             rfd, wfd = os.pipe()
